@@ -45,7 +45,8 @@ def run(ctx):
     res = Resolver(ctx.repo, ctx.ev)
     n0 = len(ctx.instances.get('R6.1', []))
     for q in ('_params_offset', '_offset', '_offset_lns', '_put_src', '_set_start_pos', '_set_end_pos'):
-        for fi in ctx.repo.funcs('fst_core', q):
+        # `_params_offset` may be inlined into its only caller `_put_src`; the other five are the primitives themselves
+        for fi in (ctx.repo.find_funcs('fst_core', q) if q == '_params_offset' else ctx.repo.funcs('fst_core', q)):
             before = len(ctx.findings)
             check_units(ctx, fi, res)
     # re-label the unit instances collected under R6.1 as R11.2
@@ -54,11 +55,11 @@ def run(ctx):
     for f in ctx.findings:
         if f.rule == 'R6.1':
             f.rule = 'R11.2'
-    po = ctx.repo.funcs('fst_core', '_params_offset')[0]
+    po = (ctx.repo.find_funcs('fst_core', '_params_offset') or ctx.repo.funcs('fst_core', '_put_src'))[0]
     bytes_src = any((isinstance(x, ast.Call) and call_name(x) in ('encode', 'c2b')) or (isinstance(x, ast.Attribute) and x.attr == 'lenbytes')
                     for x in ast.walk(po.node))
-    ctx.check('R11.2', bytes_src, 'fst_core', '_params_offset', 'byte deltas via encode() / c2b / lenbytes',
-              '_params_offset must compute the column delta in bytes', po.lineno)
+    ctx.check('R11.2', bytes_src, 'fst_core', po.qualname, 'byte deltas via encode() / c2b / lenbytes',
+              'the offset parameters of a text splice must carry the column delta in bytes', po.lineno)
 
     ctx.rule('R11.3', 'in _offset(): the walk enumerates children through syntax_ordered_children and every early `break` is control dependent on a '
                       'comparison of the child\'s end position with the offset point', 2)
@@ -67,13 +68,26 @@ def run(ctx):
         par = parent_map(fi.node)
         calls = [c for c in walk_no_nested(fi.node) if isinstance(c, ast.Call) and call_name(c) == 'syntax_ordered_children']
         ctx.check('R11.3', bool(calls), fi.module, fi.qualname, 'uses syntax_ordered_children', '_offset must enumerate children in syntax order', fi.lineno)
+        END = {'end_lineno', 'end_col_offset'}
+
+        def reads_end(e):
+            return any((isinstance(x, ast.Attribute) and x.attr in END) or
+                       (isinstance(x, ast.Call) and call_name(x) == 'getattr' and len(x.args) >= 2 and isinstance(x.args[1], ast.Constant) and x.args[1].value in END)
+                       for x in ast.walk(e))
+        end_derived = set()      # locals holding an end position of the walked child (whatever they are called)
+        for _ in range(2):
+            for x in walk_no_nested(fi.node):
+                tg = val = None
+                if isinstance(x, ast.Assign) and len(x.targets) == 1 and isinstance(x.targets[0], ast.Name):
+                    tg, val = x.targets[0].id, x.value
+                elif isinstance(x, ast.NamedExpr):
+                    tg, val = x.target.id, x.value
+                if tg is not None and (reads_end(val) or any(isinstance(y, ast.Name) and y.id in end_derived for y in ast.walk(val))):
+                    end_derived.add(tg)
         for b in walk_no_nested(fi.node):
             if isinstance(b, ast.Break):
                 tests = enclosing_tests(fi.node, b, par)
-                names = set()
-                for t, pol in tests[:2]:
-                    names |= {x.id for x in ast.walk(t) if isinstance(x, ast.Name)} | {x.attr for x in ast.walk(t) if isinstance(x, ast.Attribute)}
-                ok = bool(names & {'end_lineno', 'end_col_offset', 'fend_ln', 'fend_colo', 'end_ln', 'end_colo'})
+                ok = any(reads_end(t) or any(isinstance(x, ast.Name) and x.id in end_derived for x in ast.walk(t)) for t, pol in tests[:2])
                 ctx.check('R11.3', ok, fi.module, fi.qualname, f'break under {[norm(t, 50) for t, _ in tests[:2]]}',
                           'early termination of the offset walk must be decided by the END position of the child (a child that starts before but '
                           'ends after the edit point still has to be offset)', b.lineno)
